@@ -830,6 +830,9 @@ def run(ctx):
                 "attribute at any depth) x (PRUDP minor version, NEX version) x request body "
                 "(valid, extended, truncated at every length, random, or valid except for ONE length / count / version / tag field of its NESTED framing — structure frame, "
                 "anydata holder, buffer, string, list, map at any depth — declaring less than needed, more than there is, or the right amount followed by surplus); "
+                "x the registered OBJECT (an instance of the generated class, or of a stateful user subclass whose truth value is plain / empty or non-empty "
+                "container via __len__ / __bool__ False or True / both / changing from request to request) x the virtual time the handler awaits before its "
+                "outcome (0, 1 ms, 0.5 s ... 29 / 30 / 31 s ... 1 h, 1 day, random; virtual-time loop, the session lingers for late datagrams); "
                 "each request goes through the real RMCClient.start loop and through the Lean model; "
                 "a case is distinct per (class, method, kind, script, body)")
     ctx.assumptions.append("which `except`/`isinstance` clause a given Python exception class matches is modelled (Exc), exercised with subclasses and "
